@@ -9,10 +9,11 @@ package c02
 // earlier and have been withdrawn since are not trusted; keys of a newly served set are.
 //
 // A history is a sequence of steps (serve set S, verify token T) on one key set + verifier
-// instance. Full product: key naming scheme {every key its own kid, kid-less keys, one kid shared
-// by all generations} x SkipRemoteCheck {off, on} x steps^depth, step = served document {A}, {B},
-// {A,B}, {} (no keys), endpoint down (HTTP 500) x token signed by {A, B, attacker} x {with kid,
-// without kid}; depth 3 (thorough 4). Every step of every history is judged:
+// instance, step = served document {A}, {B}, {A,B}, {} (no keys), endpoint down (HTTP 500) x token
+// signed by {A, B, attacker} x {with kid, without kid} (30 steps). Full product: key naming scheme
+// {every key its own kid, kid-less keys, one kid shared by all generations} x steps^depth, and
+// scheme x SkipRemoteCheck {off, on} x algorithm {RS256, ES256, PS256} x steps^(depth-1);
+// depth 3 (thorough 4). Every step of every history is judged:
 //
 //	must reject  the token must be rejected under the set served now AND under the set of the last
 //	             successful download (or nothing was ever downloaded)
@@ -50,7 +51,7 @@ var (
 	rotSchemes = []string{"own", "kidless", "shared"}
 	rotSets    = []string{"A", "B", "AB", "empty", "down"}
 	rotToks    = []string{"A/kid", "A/nokid", "B/kid", "B/nokid", "X/kid", "X/nokid"}
-	rotAlgs    = []string{"ES256", "RS256", "PS256"} // members of the library default list: no verifier option involved
+	rotAlgs    = []string{"RS256", "ES256", "PS256"} // the library default list: no verifier option involved (RS256 first: cheapest to verify)
 )
 
 const rotMaxDepth = 4
@@ -304,7 +305,7 @@ func (w *rotWorker) run(v engine.Vec) engine.Result {
 				res = engine.Bad(rule, "", "C02/key-rotation/rp-remote/genuine-token-rejected/"+kc,
 					fmt.Sprintf("step %d of [%s] (scheme %s, skipremote %v, %s): token signed by a key of the served set %s rejected (last downloaded %q): %v",
 						i+1, hist(), scheme, skip, alg, set, last, err))
-			case accepted && (cl == nil || fmt.Sprint(cl.Claims["mark"]) != markOf("id", vN.signed)):
+			case accepted && (cl == nil || fmt.Sprint(cl.Claims["mark"]) != markOf("id", payloadFor("id", strings.HasPrefix(tok, "X/")))):
 				res = engine.Bad(rule, "", "C02/claims-not-the-signed-payload/rp-remote-history/"+kc, "claims handed back are not the signed payload")
 			case !accepted && cl != nil:
 				res = engine.Bad(rule, "", "C02/claims-returned-with-error/rp-remote-history", "claims handed back together with an error")
@@ -339,17 +340,16 @@ func rotatePart(c *engine.Check, t *testing.T) {
 		depth = rotMaxDepth // superset: a replay file of either tier names at most set4/tok4 (absent = default)
 	}
 	sp := rotSpace(depth)
-	// quick:    full product {scheme, skipremote, every step} with ES256; full product {scheme, skipremote, alg,
-	//           steps 1..depth-1} (the last step at its default): every history one step shorter, every algorithm.
-	// thorough: the same at depth 4, and the algorithm in the full-depth product as well (depth 3 histories are
-	//           prefixes of depth 4 histories: every step of a history is judged).
+	// full product {scheme, every step} (RS256, SkipRemoteCheck off) and full product {scheme, skipremote, alg,
+	// steps 1..depth-1} (last step at its default): every history one step shorter under every algorithm and
+	// both settings of SkipRemoteCheck. Every step of a history is judged, so shorter histories are included.
 	steps := func(n int) (g []string) {
 		for i := 1; i <= n; i++ {
 			g = append(g, fmt.Sprintf("set%d", i), fmt.Sprintf("tok%d", i))
 		}
 		return g
 	}
-	groups := [][]string{append([]string{"scheme", "skipremote"}, steps(depth)...), append([]string{"scheme", "skipremote", "alg"}, steps(depth-1)...)}
+	groups := [][]string{append([]string{"scheme"}, steps(depth)...), append([]string{"scheme", "skipremote", "alg"}, steps(depth-1)...)}
 	c.RunE1(engine.E1{
 		Part: "rotate", Space: sp, Groups: groups, Ks: []int{0, 0},
 		NewWorker: func(int) func(engine.Vec) engine.Result {
